@@ -48,6 +48,7 @@ type counterparty struct {
 	// Tendermint: heights the relayer skipped (the chain produced them, the client never saw them) with the
 	// height to trust when one of them is filled in later
 	tmSkipped []int64
+	tmTrust   int64 // set by opUpdate: the client's current latest height (same revision), 0 = unknown
 	tmAnchor  map[int64]int64
 	tmMode    int     // next header: 0 next block, 1 skip one block first, 2 fill in a skipped block
 	tmPrev    *tmStub // the previous revision of the same chain (the client may still hold its consensus states)
@@ -541,8 +542,15 @@ func (w *lcWorld) nextHeader(cp *counterparty, asMsg bool) exported.Header {
 		vs, keys, _ := s.valset(b.vals)
 		nvs, _, _ := s.valset(b.next)
 		hdr := node.MakeTMHeader(s.chainID, b.h, b.t, b.appHash, vs, nvs, keys, nil)
-		_ = prev
+		// an honest relayer trusts the height the client is at: after a governance re-anchoring below the stub's
+		// previous block that is the installed height (what sits above it may be a stale state, even of another
+		// chain with the same id that governance pointed the client at in between)
 		trusted := prev
+		if tb, ok := s.blocks[cp.tmTrust]; ok && cp.tmTrust > 0 && cp.tmTrust < prev.h {
+			trusted = tb
+			w.rec.Probe("update.trusts_installed_height_below_stub_tip")
+		}
+		cp.tmTrust = 0
 		hdr.TrustedHeight = clienttypes.NewHeight(s.rev, uint64(trusted.h))
 		tv, _, _ := s.valset(trusted.next)
 		tp, _ := tv.ToProto()
@@ -662,6 +670,13 @@ func (w *lcWorld) opUpdate(op kernel.Op) {
 	}
 	if cl.kind == "tm" {
 		cl.cp.tmMode = kernel.Mod(op.Arg(1), 4) % 3 // 0,1,2,0
+	}
+	if cl.kind == "tm" && cl.cp.tm != nil {
+		if cs, ok := w.host.App.XIBCKeeper.ClientKeeper.GetClientState(w.host.ReadCtx(), name); ok {
+			if lh, isH := cs.GetLatestHeight().(clienttypes.Height); isH && lh.RevisionNumber == cl.cp.tm.rev {
+				cl.cp.tmTrust = int64(lh.RevisionHeight)
+			}
+		}
 	}
 	hdr := w.nextHeader(cl.cp, true)
 	if hdr == nil {
